@@ -41,6 +41,7 @@ func NewDirHandler(path string, sendOnly bool) *DirHandler {
 	return &DirHandler{
 		MBoxPath: path,
 		sendOnly: sendOnly,
+		deferred: make(map[string]bool),
 	}
 }
 
